@@ -488,6 +488,6 @@ func runKSRound(c KSCase, rec *h.Rec, st *ksState, level int, seed uint64, first
 // rapidLevel picks a level for a pre-allocated output ciphertext (KeySwitch must resize it).
 func rapidLevel(rng *h.SplitMix, max int) int { return rng.Intn(max + 1) }
 
-var propKS = h.NewProp("TestPropKeySwitch", h.Budget{Quick: 1000, Thorough: 5000}, genKS, runKS)
+var propKS = h.NewProp("TestPropKeySwitch", h.Budget{Quick: 1000, Thorough: 8000}, genKS, runKS)
 
 func TestPropKeySwitch(t *testing.T) { propKS.Check(t) }
